@@ -78,7 +78,9 @@ def grid_roles(repo: Repo) -> RuleRun:
         s = Obj(name)
         g = [[Sym(f"{name}[{i}][{j}]") for j in range(n)] for i, n in enumerate(shape)]
         s.set("grid", g)
-        s.set("faces", [f for row in g for f in row])
+        # faces deliberately NOT in grid order (as for the merged spline sketches): addressing must go through grid
+        flat = [f for row in g for f in row]
+        s.set("faces", flat[1:] + flat[:1])
         return s
 
     for shape in ([2, 2, 2], [1, 3]):
@@ -241,4 +243,13 @@ def merged_roles(repo: Repo) -> RuleRun:
 
 merged_roles.rule_id = "C19.MERGED-ROLES"
 
-RULES = [grid_roles, slice_roles, partition, merged_roles]
+def assemble_walk(repo: Repo) -> RuleRun:
+    """Deleting an operation removes its block and nothing else (abstract run of Mesh.assemble)."""
+    from . import c06
+
+    return c06.assemble_walk(repo, PROP, "C19.DELETE-LOCAL")
+
+
+assemble_walk.rule_id = "C19.DELETE-LOCAL"
+
+RULES = [grid_roles, slice_roles, partition, merged_roles, assemble_walk]
